@@ -62,6 +62,24 @@ CHECKS.update({
                 note=HTTP_NOTE),
 })
 
+CHECKS.update({
+    "C04": dict(cat="fault_enumeration", ref="6/C04", engine="CRASH", technique="TLC model checking of SyncStorage with the Crash action (Inv_C04) + enumeration of every file-system call as a crash point on the real code (process-kill images and power-loss images rebuilt from the I/O log) + TLC trace validation of the recovered state (Recovered event of spec/TraceSeq)",
+                text="Every write/truncate/sync/delete/create the database issues while a history runs (payloads from 1 B to 64 KiB/1 MiB, a second connection held open in part of the run so that WAL and checkpoints vary) is a crash point; the process-crash image (real kill before the call) and power-loss images (last synced content plus subsets of later writes) are opened by the real code in a fresh process; TLC checks integrity_check = ok, every acknowledged request present, the in-flight request all-or-nothing, chain and snapshot consistent, and a continuation of further requests.",
+                note="Assumes directory operations durable in issue order, pwrite atomic (thorough adds torn last writes), tmpfs/kernel honour write+fsync; SQLite itself is exercised, not verified; the -shm file is not part of a power-loss image. Trusted: the LD_PRELOAD shim's I/O log is complete for the database files."),
+    "C05": dict(cat="fault_enumeration", ref="6/C05", engine="FAULT", technique="TLC model checking of SyncStorage with Fail actions (Inv_C05; liveness under fairness in thorough) + enumeration of every storage call (trait level, before/after) and every I/O call (LD_PRELOAD shim, EIO/ENOSPC) of every request of the histories on the real code + TLC trace validation (C05_Round)",
+                text="For each request of two histories, through HTTP and library, a probe counts its storage calls and I/O calls; each one is then made to fail (before / after taking effect; EIO once / ENOSPC persistently; selected double faults). TLC judges: error or correct answer, success only with the change committed, state exactly before (or after, only when the failing step can have been the commit), three follow-up requests served correctly.",
+                note="SQLite backend. Trait-level faults through a gating wrapper implementing the public Storage trait; I/O-level faults at libc calls on the database files."),
+    "C06": dict(cat="exploration", ref="6/C06", engine="BYTES", technique="seeded payload generator (lengths incl. every length of the page-boundary region, byte classes, chunk splittings) driven through library, in-process HTTP and a real socket; TLC trace validation over payload tokens (C06_Step)",
+                text="TLC decides the relational part (which upload's bytes and ids must come back) on every step; the byte level is supplied by the harness, which maps returned bytes to the token of the upload they equal exactly. Lengths 1..1 MiB+1 (100 MiB in thorough), seven byte classes, all split positions of short bodies and splits around 4096/65536, Content-Length and chunked transfer over a real socket, both backends, reopen.",
+                note="TLC never sees bytes; 'all payloads' is a generator, not an enumeration."),
+    "C17": dict(cat="exploration", ref="6/C17", engine="BIN", technique="trace validation of the unmodified executable: configurations drawn over flags/environment, HTTP over every listen address, SIGKILL + restart; TLC judges with model constants set from the configuration (spec/TraceSeq)",
+                text="The real binary (rebuilt from /repo into /verif/build) is started with drawn configurations (1-3 listen addresses incl. localhost and [::1], nested data dir, allow-list, snapshot targets, each by flag or env), driven over all addresses, killed and restarted twice; TLC checks every exchange against the protocol/urgency/allow-list predicates under the configured constants; data files must be in the configured directory only.",
+                note="Loopback only; finite sample of configurations (8 quick / 48 thorough); clock of the child shifted through the shim."),
+    "C19": dict(cat="exploration", ref="6/C19", engine="FIX", technique="committed fixture corpus written by the pinned tree (clean and killed-in-transaction data directories with their producing traces); opened by the current code; TLC trace validation (Recovered + continuation in spec/TraceSeq)",
+                text="Twelve data directories produced by the pinned commit a6bc6ed (4 histories: several clients, snapshots, payloads to 1 MiB; closed cleanly or killed inside a transaction with leftover -wal/-shm) are copied and opened by the current code; the stored trace supplies the expected logical content; TLC checks every client, version, payload, latest pointer, snapshot, and that new versions/snapshots can be appended.",
+                note="Finite corpus; generated once by tools/gen_fixtures.py from a temporary worktree."),
+})
+
 REASON_WIP = "check not built yet (work in progress, see DESIGN.md section 10 build order)"
 
 
@@ -98,6 +116,11 @@ def main():
              "kind_free_text": "TLC on spec/SyncHttp (MC_Http grammar), spec/SyncAllow (MC_Allow) + replay through real handlers with library twin + TLC trace validation"},
             {"name": "LOCK", "path": "lib/engines.py:engine_lock", "serves_properties": ["C09", "C13"],
              "kind_free_text": "lock-step executions (backend variants, two-run non-interference) judged by TLC (spec/TraceLockstep)"},
+            {"name": "CRASH", "path": "lib/engines.py:engine_crash", "serves_properties": ["C04"], "kind_free_text": "crash-point enumeration with the LD_PRELOAD shim, recovery in fresh processes, TLC judge"},
+            {"name": "FAULT", "path": "lib/engines.py:engine_fault", "serves_properties": ["C05"], "kind_free_text": "trait-level and I/O-level fault sweeps, TLC judge (spec/TraceConc C05_Round)"},
+            {"name": "BYTES", "path": "lib/engines.py:engine_bytes", "serves_properties": ["C06"], "kind_free_text": "payload generator through lib / HTTP / socket, TLC judge"},
+            {"name": "BIN", "path": "lib/engines.py:engine_bin", "serves_properties": ["C17"], "kind_free_text": "real executable as a black box, TLC judge"},
+            {"name": "FIX", "path": "lib/engines.py:engine_fix", "serves_properties": ["C19"], "kind_free_text": "fixture corpus, TLC judge"},
             {"name": "URG", "path": "lib/engines.py:engine_urg", "serves_properties": ["C12"],
              "kind_free_text": "TLC on spec/MC_Urgency + grid of real add_version calls judged by TLC with BigNat (spec/TraceUrg)"},
         ],
